@@ -361,6 +361,10 @@ func (r *Resolver) Val(e ast.Expr) *V {
 		if name == "builtin.len" && len(args) == 1 {
 			return &V{Kind: "len", Args: args, Node: e}
 		}
+		// x.After(y) is the same test as y.Before(x): one canonical form
+		if name == "time.Time.After" && len(args) == 2 {
+			name, args = "time.Time.Before", []*V{args[1], args[0]}
+		}
 		return &V{Kind: "call", Name: name, Args: args, Obj: callee, Node: e}
 	case *ast.IndexExpr:
 		return &V{Kind: "index", Args: []*V{r.Val(x.X), r.Val(x.Index)}, Node: e}
@@ -626,4 +630,77 @@ func (r *Resolver) reachingDef(id *ast.Ident, obj types.Object) (defSite, bool) 
 	d := reaching[0]
 	r.rdCache[id] = &d
 	return d, true
+}
+
+// SrcChain is one way a value can flow into an expression through local copies: Leaf is the canonical
+// value of the originating expression ("zero" for a declaration without value), Nodes the defining
+// statements passed on the way (outermost first).
+type SrcChain struct {
+	Leaf  *V
+	Zero  bool
+	Nodes []ast.Node
+}
+
+// Sources follows an identifier through all of its definitions (and theirs, for plain copies of other
+// locals), so that a rule can state "the only values that reach X are …" independently of how many
+// intermediate variables carry them.
+func (r *Resolver) Sources(e ast.Expr) []SrcChain {
+	var out []SrcChain
+	seen := map[types.Object]bool{}
+	var walk func(e ast.Expr, nodes []ast.Node, depth int)
+	walk = func(e ast.Expr, nodes []ast.Node, depth int) {
+		e = unparen(e)
+		id, ok := e.(*ast.Ident)
+		info := r.F.Info()
+		var obj types.Object
+		if ok {
+			obj = info.Uses[id]
+			if obj == nil {
+				obj = info.Defs[id]
+			}
+		}
+		v, isVar := obj.(*types.Var)
+		if !ok || !isVar || v.IsField() || depth > 8 || len(r.defs[obj]) == 0 || seen[obj] {
+			out = append(out, SrcChain{Leaf: r.Val(e), Nodes: nodes})
+			return
+		}
+		seen[obj] = true
+		defer delete(seen, obj)
+		for _, d := range r.defs[obj] {
+			ns := append(append([]ast.Node{}, nodes...), d.node)
+			switch {
+			case d.kind == "zero":
+				out = append(out, SrcChain{Zero: true, Nodes: ns})
+			case d.kind == "assign" && d.rhs != nil && d.idx < 0:
+				walk(d.rhs, ns, depth+1)
+			case d.kind == "assign" && d.rhs != nil:
+				out = append(out, SrcChain{Leaf: r.valOfDef(d, e), Nodes: ns})
+			default:
+				out = append(out, SrcChain{Leaf: &V{Kind: "opaque", Name: d.kind, Node: d.node}, Nodes: ns})
+			}
+		}
+	}
+	walk(e, nil, 0)
+	return out
+}
+
+// CopyRoot follows a local that is defined exactly once as a plain copy of another local
+// (`topics := prune`, a parameter binding of an inlined helper) to the local it copies.
+func (r *Resolver) CopyRoot(obj types.Object) types.Object {
+	for i := 0; i < 8 && obj != nil; i++ {
+		d, ok := r.SingleDef(obj)
+		if !ok || d.kind != "assign" || d.rhs == nil || d.idx >= 0 {
+			return obj
+		}
+		id, ok := unparen(d.rhs).(*ast.Ident)
+		if !ok {
+			return obj
+		}
+		src, ok := r.F.Info().Uses[id].(*types.Var)
+		if !ok || src.IsField() || src == obj {
+			return obj
+		}
+		obj = src
+	}
+	return obj
 }
